@@ -17,12 +17,23 @@ import ast
 from .model import astcopy
 
 # private API of the pinned tree: (class or None, name) -> number of positional parameters (with the receiver)
-KNOWN_PRIVATE = {
-    ('AnsiString', '_apply_string_format'), ('AnsiString', '_find_setting_reference'), ('AnsiString', '_find_settings_references'),
-    ('AnsiString', '_shift_settings_idx'), ('AnsiString', '_slice_val_to_idx'), ('AnsiString', '_split'), ('AnsiString', '_strip'),
-    ('_AnsiSettingPoint', '_parse_rgb_string'), ('_AnsiSettingPoint', '_scrub_ansi_format_int'),
-    ('_AnsiSettingPoint', '_scrub_ansi_format_string'), ('_AnsiSettingPoint', '_scrub_ansi_settings'),
+KNOWN_PARAMS = {
+    ('AnsiString', '_apply_string_format'): ('self', 'string_format', 'settings'),
+    ('AnsiString', '_find_setting_reference'): ('find', 'in_list'),
+    ('AnsiString', '_find_settings_references'): ('find_list', 'in_list'),
+    ('AnsiString', '_shift_settings_idx'): ('self', 'num', 'keep_origin'),
+    ('AnsiString', '_slice_val_to_idx'): ('self', 'val', 'default'),
+    ('AnsiString', '_split'): ('self', 'sep', 'maxsplit', 'r'),
+    ('AnsiString', '_strip'): ('self', 'chars', 'inplace', 'do_lstrip', 'do_rstrip'),
+    ('_AnsiSettingPoint', '_parse_rgb_string'): ('s',),
+    ('_AnsiSettingPoint', '_scrub_ansi_format_int'): ('ansi_format',),
+    ('_AnsiSettingPoint', '_scrub_ansi_format_string'): ('ansi_format', 'make_unique'),
+    ('_AnsiSettingPoint', '_scrub_ansi_settings'): ('settings', 'make_unique', 'parsed_ids'),
 }
+KNOWN_PRIVATE = set(KNOWN_PARAMS)
+PINNED_CLASSES = {'AnsiString', 'AnsiStr', '_AnsiSettingPoint', '_AnsiSettingsIterator', '_AnsiCharIterator', '_AnsiStrCharIterator', '_AnsiControlFn',
+                  'AnsiFormat', 'AnsiSetting', 'AnsiParam', 'AnsiParamEffect', 'AnsiParamEffectFn', 'ColorComponentType', 'ColourComponentType',
+                  'ParsedAnsiControlSequenceString', 'AnsiControlSequence'}
 # private classes of the pinned tree are resolved as roles by the model; their names are not touched here.
 
 MAX_ROUNDS = 4
@@ -169,6 +180,7 @@ class Inliner:
         self.trees = trees
         self.log = []
         self.helpers = {}
+        self.unresolved_scopes = set()
 
     # ------------------------------------------------------------------------------------------------ index
     def _index(self):
@@ -191,17 +203,51 @@ class Inliner:
         self._index()
         present = set(self.helpers)
         by_scope = {}
-        for k in KNOWN_PRIVATE - present:
-            by_scope.setdefault(k[0], {'missing': [], 'new': []})['missing'].append(k)
-        for k in present - KNOWN_PRIVATE:
+        # a private class of the pinned tree may itself have been renamed: find the class that now carries its helpers (by parameter lists)
+        scope_alias = {}
+        for scope in {k[0] for k in KNOWN_PRIVATE if k[0] is not None and k[0] not in self.class_methods}:
+            wanted = [KNOWN_PARAMS[k] for k in KNOWN_PRIVATE if k[0] == scope]
+            scores = {}
+            for cname, meths in self.class_methods.items():
+                if cname in PINNED_CLASSES:
+                    continue
+                scores[cname] = sum(1 for h in meths.values() if tuple(h.params) in wanted and _is_private(h.name))
+            best = sorted(scores.items(), key=lambda kv: -kv[1])
+            if best and best[0][1] >= 1 and (len(best) == 1 or best[1][1] < best[0][1]):
+                scope_alias[best[0][0]] = scope
+        for k in KNOWN_PRIVATE:
+            cur_scope = next((c for c, o in scope_alias.items() if o == k[0]), k[0])
+            if (cur_scope, k[1]) not in present:
+                by_scope.setdefault(cur_scope, {'missing': [], 'new': []})['missing'].append(k)
+        known_now = {(next((c for c, o in scope_alias.items() if o == k[0]), k[0]), k[1]) for k in KNOWN_PRIVATE}
+        for k in present - known_now:
             by_scope.setdefault(k[0], {'missing': [], 'new': []})['new'].append(k)
+        self.known_now = known_now
         mapping = {}
+        self.unresolved_scopes = set()
         for scope, d in by_scope.items():
-            if len(d['missing']) == 1 and len(d['new']) >= 1:
-                # the new helper that is called from outside itself the most is the renamed one only if it is unique by arity
-                # with the call sites of the old name gone; keep it simple: exactly one new helper in the scope
-                if len(d['new']) == 1:
-                    mapping[d['new'][0]] = d['missing'][0]
+            if not d['missing']:
+                continue
+            left = list(d['missing'])
+            news = list(d['new'])
+            # same parameter list first, then same number of parameters when that is unambiguous
+            for old in list(left):
+                cand = [k for k in news if tuple(self.helpers[k].params) == KNOWN_PARAMS[old]]
+                if len(cand) == 1:
+                    mapping[cand[0]] = old
+                    news.remove(cand[0])
+                    left.remove(old)
+            for old in list(left):
+                cand = [k for k in news if len(self.helpers[k].params) == len(KNOWN_PARAMS[old])]
+                same = [o for o in left if len(KNOWN_PARAMS[o]) == len(KNOWN_PARAMS[old])]
+                if len(cand) == 1 and len(same) == 1:
+                    mapping[cand[0]] = old
+                    news.remove(cand[0])
+                    left.remove(old)
+            if left:
+                # a helper of the pinned tree is gone and no new one stands for it: nothing in this scope is inlined (the rules will
+                # report the vanished anchor rather than judge a reshaped caller)
+                self.unresolved_scopes.add(scope)
         if not mapping:
             return
         names = {new[1]: old[1] for new, old in mapping.items()}
@@ -234,7 +280,7 @@ class Inliner:
         f = call.func
         if isinstance(f, ast.Name):
             h = self.helpers.get((None, f.id))
-            if h and (None, f.id) not in KNOWN_PRIVATE:
+            if h and (None, f.id) not in getattr(self, 'known_now', KNOWN_PRIVATE) and None not in getattr(self, 'unresolved_scopes', ()):
                 return h, None
             return None
         if isinstance(f, ast.Attribute) and _is_private(f.attr):
@@ -251,7 +297,7 @@ class Inliner:
             if hcls is None:
                 return None
             h = self.helpers.get((hcls, f.attr))
-            if h is None or (hcls, f.attr) in KNOWN_PRIVATE:
+            if h is None or (hcls, f.attr) in getattr(self, 'known_now', KNOWN_PRIVATE) or hcls in getattr(self, 'unresolved_scopes', ()):
                 return None
             return h, (base if via_instance else None)
         return None
@@ -342,11 +388,15 @@ class Inliner:
                 return None
             return r
 
-        def fresh_env(h, env):
-            """rename the helper's own locals that collide with the caller's names"""
+        def fresh_env(h, env, keep=()):
+            """rename the helper's own locals that collide with the caller's names (except the names the call statement itself assigns,
+            when no argument reads them: they are overwritten by the statement anyway)"""
             ren = {}
+            arg_names = {x.id for v in env.values() for x in ast.walk(v) if isinstance(x, ast.Name)}
             for nme in _stores(h.body):
                 if nme in h.params or nme in h.kwonly:
+                    continue
+                if nme in keep and nme not in arg_names:
                     continue
                 if nme in taken:
                     k = 1
@@ -424,7 +474,10 @@ class Inliner:
                 body = astcopy(h.body)
                 pre = []
                 sto = _stores(body)
-                ren = fresh_env(h, env)
+                keep = set()
+                if kind == 'assign':
+                    keep = {x.id for x in ast.walk(st.targets[0]) if isinstance(x, ast.Name)}
+                ren = fresh_env(h, env, keep)
                 # parameters that the helper assigns get a local of their own
                 uses = {}
                 for n_ in _walk_no_defs(body):
@@ -526,8 +579,17 @@ class Inliner:
                             args.append(a)
                     n.args = args
                 return n
+        class T(ast.NodeTransformer):
+            def visit_Assign(self, n):
+                if len(n.targets) == 1 and isinstance(n.targets[0], ast.Tuple) and isinstance(n.value, ast.Tuple) and \
+                        len(n.targets[0].elts) == len(n.value.elts) and all(isinstance(x, ast.Name) for x in n.targets[0].elts):
+                    if [x.id for x in n.targets[0].elts] == [getattr(v, 'id', None) for v in n.value.elts]:
+                        return ast.copy_location(ast.Pass(), n)
+                return n
         for tree in self.trees.values():
             S().visit(tree)
+            T().visit(tree)
+            _drop_pass(tree)
 
     def run(self):
         self.renames()
@@ -552,3 +614,13 @@ def _all_paths_end(node):
             return ends(last.body) and ends(last.orelse)
         return False
     return ends(node.body) and ends(node.orelse)
+
+
+def _drop_pass(tree):
+    for node in ast.walk(tree):
+        for fld in ('body', 'orelse', 'finalbody'):
+            L = getattr(node, fld, None)
+            if isinstance(L, list) and L and all(isinstance(x, ast.stmt) for x in L):
+                kept = [x for x in L if not isinstance(x, ast.Pass)]
+                if kept and len(kept) != len(L):
+                    setattr(node, fld, kept)
